@@ -93,7 +93,10 @@ EmitSeq(S, q)    == [S EXCEPT !.em = @ \o q]
 
 Joined(S)        == {s \in DOMAIN S.sess : S.sess[s].st = "joined"}
 Has(S, s, f)     == f \in S.sess[s].feats
-Attr(S, s, a)    == IF a \in DOMAIN S.sess[s].attrs THEN S.sess[s].attrs[a] ELSE ""
+\* (wamp.session.modify_details may delete a detail: the key stays, marked)
+Deleted          == "<deleted>"
+Present(S, s, a) == a \in DOMAIN S.sess[s].attrs /\ S.sess[s].attrs[a] # Deleted
+Attr(S, s, a)    == IF Present(S, s, a) THEN S.sess[s].attrs[a] ELSE ""
 SidOf(S, s)      == S.sess[s].id
 
 \* --------------------------------------------------------------------------
@@ -112,9 +115,8 @@ NoOpts == [ack |-> FALSE, xme |-> "", xl |-> <<>>, el |-> <<>>, hx |-> FALSE, he
 \* violated the protocol) and, for calls, the peer at the other end announced it too
 PptD(o) == IF o.ppt # "" THEN {<<"ppt_scheme", o.ppt>>} ELSE {}
 
-PubIdent(S, p) == {<<"publisher", ToString(SidOf(S, p))>>,
-                   <<"publisher_authid", Attr(S, p, "authid")>>,
-                   <<"publisher_authrole", Attr(S, p, "authrole")>>}
+PubIdent(S, p) == {<<"publisher", ToString(SidOf(S, p))>>}
+                  \cup {<<"publisher_" \o a, Attr(S, p, a)>> : a \in {aa \in {"authid", "authrole"} : Present(S, p, aa)}}
 
 \* Events of one publication.  `pubsess' is the publishing session name or
 \* "" for the realm's meta session; `fields' carries the payload fields.
@@ -160,8 +162,7 @@ SubMetaFx(S, topic, cause, fields) ==
 
 \* --------------------------------------------------------------------------
 \* sessions
-IdentPairs(S, s) == {<<"authid", Attr(S, s, "authid")>>, <<"authrole", Attr(S, s, "authrole")>>,
-                     <<"authmethod", Attr(S, s, "authmethod")>>, <<"authprovider", Attr(S, s, "authprovider")>>}
+IdentPairs(S, s) == {<<a, Attr(S, s, a)>> : a \in {aa \in {"authid", "authrole", "authmethod", "authprovider"} : Present(S, s, aa)}}
 
 RoleOfUser(c, authid) == IF \E i \in DOMAIN c.users : c.users[i].id = authid
                          THEN (CHOOSE r \in {c.users[i] : i \in DOMAIN c.users} : r.id = authid).role
@@ -407,9 +408,8 @@ Eligible(r) ==
                    IN {r.callees[(i % n) + 1]}
          [] OTHER -> Rng(r.callees)       \* random
 
-CallerIdent(S, c) == {<<"caller", ToString(SidOf(S, c))>>,
-                      <<"caller_authid", Attr(S, c, "authid")>>,
-                      <<"caller_authrole", Attr(S, c, "authrole")>>}
+CallerIdent(S, c) == {<<"caller", ToString(SidOf(S, c))>>}
+                     \cup {<<"caller_" \o a, Attr(S, c, a)>> : a \in {aa \in {"authid", "authrole"} : Present(S, c, aa)}}
 
 CanInterrupt(S, callee) == Has(S, callee, "callee:call_canceling")
 
@@ -786,6 +786,14 @@ MetaCallFx(S, s, req, i, hp, pick) ==
     [] proc = U_session_get ->
          IF byId = {} THEN CallErr(S, s, req, ErrNoSuchSession)
          ELSE LET v == CHOOSE vv \in byId : TRUE IN Emit(S, s, [R EXCEPT !.x = i.id, !.pd = IdentPairs(S, v)])
+    [] proc = U_session_modify_details ->
+         \* i.args = <<key, value>> (value "" = delete the key); fewer arguments = a malformed request.
+         \* The change is in force for everything routed, disclosed, filtered, authorized or
+         \* answered by the meta API afterwards.
+         IF Len(i.args) < 2 \/ i.args[1] = "session" THEN CallErr(S, s, req, ErrInvalidArgument)
+         ELSE IF byId = {} THEN CallErr(S, s, req, ErrNoSuchSession)
+         ELSE LET v == CHOOSE vv \in byId : TRUE IN
+              Emit([S EXCEPT !.sess[v].attrs[i.args[1]] = IF i.args[2] = "" THEN Deleted ELSE i.args[2]], s, R)
     [] proc = U_session_kill ->
          IF ~S.cfg.metakill THEN CallErr(S, s, req, ErrNoSuchProc)
          ELSE IF i.id = sid THEN CallErr(S, s, req, ErrNoSuchSession)       \* never the caller
